@@ -965,10 +965,12 @@ func TestVerifDbg_C04_connseq(t *testing.T) {
 func c04sMatrix() []c04sCase {
 	var out []c04sCase
 	body := "c0s0:body"
-	for _, status := range []string{"200", "204", "304", "101", "101-upgrade", "042", "099", "500"} {
+	// round 6: Connection tokens that match only under Unicode folding (U+212A KELVIN SIGN in
+	// keep-alive, U+017F LONG S in close, fullwidth U in Upgrade) are other tokens
+	for _, status := range []string{"200", "204", "304", "101", "101-upgrade", "101-upgrade-fold", "042", "099", "500"} {
 		for _, framing := range []string{"len", "chunked", "cl0"} {
 			for _, proto := range []string{"HTTP/1.1", "HTTP/1.0"} {
-				for _, conn := range []string{"", "close", "keep-alive", "x, Close", "keep-alive, close", "x-foo\r\nConnection: close", "x-foo\r\nconnection: keep-alive", "not close"} {
+				for _, conn := range []string{"", "close", "keep-alive", "x, Close", "keep-alive, close", "x-foo\r\nConnection: close", "x-foo\r\nconnection: keep-alive", "not close", "Keep-alive", "cloſe"} {
 					for _, method := range []string{"GET", "HEAD"} {
 						for _, part := range []int{-1, 0, 1} {
 							for _, leftover := range []string{"", "x"} {
@@ -977,13 +979,17 @@ func c04sMatrix() []c04sCase {
 								}
 								code := status
 								hdr := ""
-								if status == "101-upgrade" {
+								if status == "101-upgrade" || status == "101-upgrade-fold" {
 									code = "101"
 									hdr += "Upgrade: verif\r\n"
+									tok := "Upgrade"
+									if status == "101-upgrade-fold" {
+										tok = "Ｕpgrade"
+									}
 									if conn == "" {
-										hdr += "Connection: Upgrade\r\n"
+										hdr += "Connection: " + tok + "\r\n"
 									} else {
-										hdr += "Connection: Upgrade, " + conn + "\r\n"
+										hdr += "Connection: " + tok + ", " + conn + "\r\n"
 									}
 								} else if conn != "" {
 									hdr += "Connection: " + conn + "\r\n"
